@@ -72,6 +72,8 @@ func (e *exec) Exec(op string) string {
 		return CheckHist(toks)
 	case "ns":
 		return e.nodeStep(op, toks)
+	case "tick":
+		return tick(toks)
 	}
 	return "bad-op"
 }
@@ -288,6 +290,8 @@ func (P) Monitor(c *hx.CaseRun) []hx.Failure {
 	for i, op := range c.Ops {
 		ans := c.Impl[i]
 		switch {
+		case strings.HasPrefix(op, "tick "):
+			fs = append(fs, tickMonitor(op, ans)...)
 		case strings.HasPrefix(op, "diag"):
 			toks := hx.Tokens(ans)
 			if v, _ := hx.Arg(toks, "dead"); v != "0" && v != "" {
@@ -367,6 +371,7 @@ func simLine(n int, powers []int64, byz []bool, seed int64, steps, heights int, 
 }
 
 func (P) Generate(g *hx.Gen) {
+	tickCases(g)
 	profs := []string{"sync", "async", "async", "lossy", "byz", "byz", "byz", "late", "late"}
 	total := g.Pick(60, 1200) // thorough: 1200 simulations (27 min measured for 1500 with the step-level trace on a loaded machine)
 	scripted := g.Pick(4, 40)
